@@ -42,6 +42,8 @@ Section Finder.
   Variable raw : text.         (* original source *)
   Variable L : Z.              (* len(code), computed once by the caller: L = L *)
   Variable F : nat.            (* fuel, computed once by the caller: F = fuel_for code *)
+  Variable as_found : bool.    (* true = _follows_dot as introduced by rope 2b4039e (kept as history: it took the dot of a
+                                  float literal for an attribute access); false = the current code (06a46a8) *)
 
   (* code[i] and code[a:b] with the length passed in *)
   Definition getC (i : Z) : res N :=
@@ -128,6 +130,23 @@ Section Finder.
     let stop := clampC o in
     Val (rindex_go (S (length code)) kind (stop - 1)).
 
+  (* _follows_dot(offset): the last non-space character before offset is a dot, and (06a46a8) that dot does not end a
+     number: the word before it, if any, does not start with a digit *)
+  Definition follows_dot (o : Z) : res bool :=
+    do prev <- last_non_space F (o - 1);
+    if prev <? 0 then Val false
+    else
+      do cp <- getC prev;
+      if negb (cp =? cDOT)%N then Val false
+      else if as_found then Val true
+      else
+        do before <- last_non_space F (prev - 1);
+        if before <? 0 then Val true
+        else
+          do b <- is_id before;
+          if negb b then Val true
+          else do ws <- word_start before; do c <- getC ws; Val (negb (isdigit u c)).
+
   Definition c_open3 : list N := [91; 40; 123]%N.           (* open brackets *)
   Definition c_colon_comma : list N := [58; 44]%N.          (* colon, comma *)
   Definition c_quotes : list N := [39; 34]%N.               (* both quotes *)
@@ -184,9 +203,8 @@ Section Finder.
                 do nxt <- (if o + 1 <? L then is_id (o + 1) else Val false);
                 if negb (iskeyword (sliceC atom (o + 1))) || nxt then Val atom
                 else
-                  (* or self._follows_dot(atom_start): prev = last_non_space(atom - 1); prev >= 0 and code[prev] is a dot *)
-                  do prev <- last_non_space F (atom - 1);
-                  do fd <- (if 0 <=? prev then do cp <- getC prev; Val (cp =? cDOT)%N else Val false);
+                  (* or self._follows_dot(atom_start) *)
+                  do fd <- follows_dot atom;
                   if fd then Val atom else Val aux
               else Val aux
         | 2%nat =>   (* _find_parens_start(o) *)
@@ -242,6 +260,9 @@ Definition w_word_range (u : utable) (code : text) (o : Z) : res (Z * Z) :=
 Definition w_word_at (u : utable) (code raw : text) (o : Z) : res text :=
   get_word_at u code raw (lenZ code) (fuel_for code) o.
 Definition w_primary_range (u : utable) (code : text) (o : Z) : res (Z * Z) :=
-  get_primary_range u code (lenZ code) (fuel_for code) o.
+  get_primary_range u code (lenZ code) (fuel_for code) false o.
 Definition w_primary_at (u : utable) (code raw : text) (o : Z) : res text :=
-  get_primary_at u code raw (lenZ code) (fuel_for code) o.
+  get_primary_at u code raw (lenZ code) (fuel_for code) false o.
+(* history: get_primary_range with _follows_dot as rope 2b4039e introduced it (before 06a46a8) *)
+Definition w_primary_range_as_found_2b4039e (u : utable) (code : text) (o : Z) : res (Z * Z) :=
+  get_primary_range u code (lenZ code) (fuel_for code) true o.
